@@ -330,6 +330,11 @@ func c10fReadOut(c *Ctx) {
 			for _, lf := range leaves {
 				call, isCall := lf.(*ssa.Call)
 				if !isCall || calleeName(call) != "(*strings.Builder).String" {
+					// a text that was not written into a builder at all (built directly from the
+					// node) is not a reworked read-out
+					if !derivesFromReadOut(lf, 0) {
+						continue
+					}
 					okR = false
 					continue
 				}
@@ -347,4 +352,25 @@ func c10fReadOut(c *Ctx) {
 		}
 	}
 	c.Check(n >= 8, "read-out/census", "-", fmt.Sprintf("%d text returns of builder-filling emitter functions", n), fmt.Sprintf("only %d text returns found", n))
+}
+
+// derivesFromReadOut: somewhere in the expression a builder is read out.
+func derivesFromReadOut(v ssa.Value, depth int) bool {
+	if depth > 8 {
+		return true
+	}
+	if call, ok := v.(*ssa.Call); ok && calleeName(call) == "(*strings.Builder).String" {
+		return true
+	}
+	in, ok := v.(ssa.Instruction)
+	if !ok {
+		return false
+	}
+	var ops []*ssa.Value
+	for _, op := range in.Operands(ops) {
+		if *op != nil && derivesFromReadOut(*op, depth+1) {
+			return true
+		}
+	}
+	return false
 }
